@@ -15,6 +15,7 @@ RULE = (
     "Death = os._exit in a forked child (no finally blocks, no buffer flush). Oracle: afterwards, in a fresh process on the damaged store, three calls of every function of the scenario raise nothing "
     "and return the correct value, and the second and third call run no body (memoization recovered); for reported errors the faulted call itself returns the correct value, and so do the same calls made twice more by the surviving process. "
     "Non-trivial = the fault lands on a data or pointer file (not only on a mkdir); distinct by (scenario, operation index, variant)."
+    " Round 6: partition keys that cannot be file names are not combined with a key override; no partition inside the chain topology's list."
 )
 ASSUMPTIONS = [
     "faults are injected at Python-level filesystem operations (audit hook + wrapped open/os functions); no power-loss model (unsynced data, reordered renames), no concurrent writer processes",
